@@ -249,7 +249,7 @@ func runJob(ld *loaded, job *Job) *JobResult {
 	}
 	order := job.Solvers
 	if len(order) == 0 {
-		order = []string{"z3", "cvc5"}
+		order = []string{"z3", "cvc5", "z3new"} // z3new (60 s) is only started when both others say unknown
 	}
 	lim := []int{2000, 10000, 60000}
 	for i := range job.Limits {
